@@ -304,7 +304,7 @@ def gen_logical(rng):
         if k == "rolling":
             t = rng.below(4)
             if t <= 1:
-                trig = ("size", rng.choice([0, 30, 60, 100, 200, 400, 1024, 2048, 10 * 1024 ** 2]))
+                trig = ("size", rng.choice([0, 30, 100, 100, 200, 200, 400, 400, 1024, 2048, 10 * 1024 ** 2]))
             elif t == 2:
                 u = rng.below(7)
                 n = {0: rng.choice([3600, 86400, 100000]), 1: rng.choice([60, 1440, 5000])}.get(u, rng.range(1, 12))
@@ -637,7 +637,7 @@ def file_list(doc):
 
 
 def probes_for(doc, rng):
-    targets = ["", "zz::top", "app", "app::x", "app::x::y", "app::x::y::deep", "other", "lib::é", "app::z", "appx"]
+    targets = ["", "app", "app::x", "app::x::y::deep", "other", "lib::é", "appx"]
     lg = doc.get("loggers")
     if isinstance(lg, dict):
         targets += [t for t in lg.keys() if t not in targets]
@@ -687,8 +687,8 @@ def corpus():
 
 def cases(rng, tier):
     out = []
-    n_render = 200 if tier == "quick" else 4000
-    n_mut = 800 if tier == "quick" else 20000
+    n_render = 240 if tier == "quick" else 4000
+    n_mut = 1000 if tier == "quick" else 20000
     bases = []
     for _ in range(n_render):
         lc = gen_logical(rng)
@@ -768,7 +768,17 @@ def run_impl(ctx, cases, lines):
         except Exception:
             prog = []
         hl.append(vc.show([c[2], c[3], c[4], prog]))
-    return vc.run_lines([ctx["vh"]], hl, timeout_per_batch=IMPL_TIMEOUT)
+    # independent cases, independent scratch directories: four harness processes side by side
+    from concurrent.futures import ThreadPoolExecutor
+    nw = 4
+    chunks = [hl[i::nw] for i in range(nw)]
+    with ThreadPoolExecutor(max_workers=nw) as ex:
+        outs = list(ex.map(lambda ch: vc.run_lines([ctx["vh"]], ch, timeout_per_batch=IMPL_TIMEOUT), chunks))
+    res = [None] * len(hl)
+    for w in range(nw):
+        for j, o in enumerate(outs[w]):
+            res[w + j * nw] = o
+    return res
 
 
 DATE = re.compile(r"\d{4}-\d\d-\d\dT\d\d:\d\d:\d\d\.\d+[+-]\d\d:\d\d")
@@ -827,7 +837,9 @@ def compare(c, impl, model):
         refresh = [0] if not model[1] else [1] + list(model[1])
         nerr = len(model[3]) + len(model[5])
         berrs = sorted(repr([e[0], _b(e[1])]) for e in model[5])
-        if not isinstance(prog, list) or len(prog) != 4 or prog[0] != 1:
+        # status 3 = a panic while LOGGING (not loading) — e.g. fixed_window count 2^32-1 with base > 0 overflows in
+        # rotate (C07's subject): accepted here when file-loaded and programmatic configurations do the same
+        if not isinstance(prog, list) or len(prog) != 4 or prog[0] not in (1, 3):
             return "the programmatic equivalent of the model's logical configuration did not build/run: %r" % (prog[:1],)
         if prog[1] != acc:
             return "programmatic equivalent: accessors differ from the model's configuration"
@@ -851,8 +863,9 @@ def compare(c, impl, model):
             if status != 2:
                 return "%s: model predicts a panic while loading, status=%d" % (ext, status)
             continue
-        if status != 1:
-            return "%s: load_config_file status=%d (0 Err, 2 panic, 3 panic while logging), model loads it" % (ext, status)
+        if status != prog[0]:
+            return "%s: load_config_file status=%d (0 Err, 1 Ok, 2 panic, 3 panic while logging), model loads it, programmatic %d" % (
+                ext, status, prog[0])
         if dacc != acc:
             return "%s: Config accessors differ from the model (appenders/filters, root, loggers)" % ext
         if dn != nerr:
@@ -868,7 +881,7 @@ def compare(c, impl, model):
                 return "%s: %d deserialization errors, model %d" % (ext, lossy2[1], len(model[3]))
             if sorted(repr([e[0], e[1]]) for e in lossy2[2]) != berrs:
                 return "%s: build errors differ from the model (kind, name multiset)" % ext
-        if norm_behaviour(beh) != pbeh:
+        if status == 1 and norm_behaviour(beh) != pbeh:
             return "%s: logged output / rolled files differ from the programmatic equivalent" % ext
     return None
 
